@@ -1,25 +1,26 @@
-(* C03 — integrate returns exactly the marginal / partition function.
-   Property theorems only; proofs live in Integrate.v. *)
-From Coq Require Import List Ring_theory.
+(* C03 — integrate returns exactly the marginal / partition function
+   Property theorems only: each is closed by `exact <lemma>`; proofs live in the imported files. *)
+From Coq Require Import List ZArith QArith Qcanon Ring_theory Field_theory Permutation Sorted.
 Import ListNotations.
-From CK Require Import Base Circ Integrate.
+From CK Require Import Base.
+From CK Require Import Circ.
+From CK Require Import Integrate.
+Close Scope Qc_scope. Close Scope Q_scope. Close Scope Z_scope. Open Scope nat_scope.
 
-(* For every commutative semiring R, every family of linear functionals Int (sum over a finite
-   domain, or an integral), every well-formed smooth and decomposable circuit [c] (any DAG, any
-   arity, vector-valued layers, shared sub-circuits), every variable list Z, node o, unit k and
-   assignment y: the integrated circuit evaluates to the iterated functional, over the variables
-   of Z in the scope of o, of the original circuit. *)
+(* for every commutative semiring, every family of linear functionals Int (finite sums or integrals), every ok (smooth, decomposable, well-formed) circuit with input/sum/Hadamard/Kronecker nodes and every Z: each node of the integrated circuit evaluates to the iterated functional, over the variables of Z in its scope, of the original node *)
 Theorem C03_integrate :
   forall (R : Type) (rO rI : R) (radd rmul : R -> R -> R),
-  semi_ring_theory rO rI radd rmul eq ->
-  forall (D : Type) (Int : nat -> (D -> R) -> R),
-  (forall v f g, (forall d, f d = g d) -> Int v f = Int v g) ->
-  (forall v f g, Int v (fun d => radd (f d) (g d)) = radd (Int v f) (Int v g)) ->
-  (forall v c f, Int v (fun d => rmul c (f d)) = rmul c (Int v f)) ->
-  forall (Z : list nat) (c : circuit R D), ok R rO D c ->
-  forall (o k : nat) (y : asg D), o < length c ->
-    nth k (nth o (eval R rO radd rmul D (integrate R rO D Int Z c) y) []) rO
-    = IntL R D Int (zs_of Z (nth o (scopes R D c) []))
-        (fun y' => nth k (nth o (eval R rO radd rmul D c y') []) rO) y.
+         semi_ring_theory rO rI radd rmul eq ->
+         forall (D : Type) (Int : nat -> (D -> R) -> R),
+         (forall (v : nat) (f g : D -> R), (forall d : D, f d = g d) -> Int v f = Int v g) ->
+         (forall (v : nat) (f g : D -> R), Int v (fun d : D => radd (f d) (g d)) = radd (Int v f) (Int v g)) ->
+         (forall (v : nat) (c : R) (f : D -> R), Int v (fun d : D => rmul c (f d)) = rmul c (Int v f)) ->
+         forall (Z : list nat) (c : circuit R D),
+         ok R rO D c ->
+         forall (o k : nat) (y : asg D),
+         o < length c ->
+         nth k (nth o (eval R rO radd rmul D (integrate R rO D Int Z c) y) []) rO =
+         IntL R D Int (zs_of Z (nth o (scopes R D c) []))
+           (fun y' : asg D => nth k (nth o (eval R rO radd rmul D c y') []) rO) y.
 Proof. exact integrate_correct. Qed.
 Print Assumptions C03_integrate.
